@@ -764,7 +764,9 @@ class BaseBackend(CodeGen):
                 state_rec[idx, :] = y
                 idx += 1
             step = i + t0
-            rhs = func(step, y, *args)
+            # the generated function returns its `dy` buffer: copy the predictor slope before the corrector call
+            # overwrites it
+            rhs = np.array(func(step, y, *args))
             y_0 = y + dt * rhs
             y += dt/2 * (rhs + func(step, y_0, *args))
             if has_dde:
